@@ -23,10 +23,10 @@ ASSUMPTIONS = [
     "an operand-level $not against an instruction without operands does not match (there is no operand to consume)",
     "listings <= 12 instructions",
 ]
-POSITIONS = ["leading", "inner", "trailing", "repeated", "nested-or", "nested-and", "nested-any", "operand", "operand", "double", "not-not", "captures"]
+POSITIONS = ["leading", "inner", "trailing", "repeated", "nested-or", "nested-and", "nested-any", "operand", "operand", "double", "not-not", "captures", "adjacent-nots", "repeated"]
 ARGS = ["decoy", "decoy", "site", "next", "group-match", "group-first-only", "item-ops"]
 MUTATORS = ["none", "none", "none", "insert", "delete", "swap", "replace-copy", "extend-mn"]
-FLOORS = {f"pos={p}": 0.05 for p in set(POSITIONS)}
+FLOORS = {f"pos={p}": 0.04 for p in set(POSITIONS)}
 FLOORS.update({f"arg={a}": 0.06 for a in set(ARGS)})
 FLOORS.update({"expect=found": 0.25, "depends-on-not": 0.15})
 
@@ -164,8 +164,36 @@ def cases(draw):
             e = draw(st.integers(s + 1, j))
             t = e - s
             tv = t if draw(st.booleans()) else {"min": draw(st.integers(0, t)), "max": draw(st.integers(t, t + 1))}
+            if draw(st.integers(0, 2)) == 0:
+                # a wide window (`$not: [ret]` up to N times): the run in the listing is much shorter than the window allows, the
+                # items after it have to be found all the same
+                tv = {"min": draw(st.integers(0, t)), "max": draw(st.sampled_from([31, 32, 33, 40, 64, 200, 1000]))}
             notnode = {"$not": [x], "times": tv}
             pattern = [descs[k] for k in range(i, s)] + [notnode] + [descs[k] for k in range(e, j)]
+        elif pos == "adjacent-nots":
+            # two $not items next to each other whose arguments are alike up to a point: no operands / one operand, one / two
+            # operands, two / three alternatives.  Each guards its own instruction with its own argument
+            s = min(s, j - 2)
+            tgt = NV[draw(st.sampled_from([s, s + 1]))]
+            nm = tgt[1] if full[0] else substr(draw, tgt[1])
+            ops = []
+            for o in tgt[2][:2]:
+                d = describe_operand(draw, o, full[1])
+                if d is None:
+                    break
+                ops.append(d)
+            style = draw(st.sampled_from(["name-vs-operand", "one-vs-two-operands", "or-two-vs-three"]))
+            miss = decoy_operand(draw)
+            if style == "name-vs-operand" or not ops:
+                a1, a2 = nm, {nm: [ops[0] if ops and draw(st.booleans()) else miss]}
+            elif style == "one-vs-two-operands":
+                a1, a2 = {nm: ops[:1]}, {nm: ops[:1] + [ops[1] if len(ops) > 1 and draw(st.booleans()) else miss]}
+            else:
+                d1, d2 = listing_decoy(draw, NV, full), listing_decoy(draw, NV, full)
+                a1, a2 = {"$or": [d1, d2]}, {"$or": [d1, d2, nm if not ops else {nm: ops[:1]}]}
+            if draw(st.booleans()):
+                a1, a2 = a2, a1
+            pattern = [descs[k] for k in range(i, s)] + [{"$not": [a1]}, {"$not": [a2]}] + [descs[k] for k in range(s + 2, j)]
         elif pos == "nested-or":
             alt = listing_decoy(draw, NV, full)
             alts = [notnode, alt] if draw(st.booleans()) else [alt, notnode]
